@@ -546,4 +546,39 @@ example : (SrcTree.zips false [["a/1.png", "a/2.png"], ["b/1.png"]] 1).Clear ∧
       (history (SrcTree.zips false [["a/1.png", "a/2.png"], ["b/1.png"]] 1).toSrc [List.replicate 5 .any] ⟨none, none⟩)).pc
       = .ret ⟨true, true, some .zips⟩ := ⟨by simp [SrcTree.Clear], rfl, by decide +kernel⟩
 
+/-- **Headline for a clear-cut layout, with file names and the reported format** (this is the statement the correspondence leg
+    `_srctree_leg` compares with the real run, cf. DESIGN 11.9): the source is one of the three layouts the property names, it is
+    clear-cut (`SrcTree.Clear`: a plain folder is not "mostly zips", a folder of zips is) and names each of its files once.  Then for an
+    absent destination, any crash history and a final invocation that returns having copied: the reported `source_format` is the
+    layout's format, the destination holds exactly the layout's files, all whole, nothing foreign, both markers — and the machine's file
+    numbers and the layout's paths correspond one to one, so "file `i` is whole" is a statement about one path. -/
+theorem crash_safe_clear_layout (t : SrcTree) (hclear : t.Clear) (hnodup : t.members.Nodup) (tmp0 : Option Bool)
+    (tapes : List (List Choice)) (tape : List Choice) (r : Result)
+    (hret : (attempt t.toSrc tape (history t.toSrc tapes ⟨none, tmp0⟩)).pc = .ret r) (hcopied : r.wasCopied = true) :
+    r.fmt = some t.format ∧
+    (∃ d, (attempt t.toSrc tape (history t.toSrc tapes ⟨none, tmp0⟩)).fs.dst = some d ∧
+      (∀ p, holdsWhole t d p ↔ p ∈ t.members) ∧ (∀ p, holdsSome t d p → holdsWhole t d p) ∧ d.foreign = [] ∧
+      d.start = true ∧ d.end_ = true) ∧
+    (∀ (i j : Nat) (p : String), t.members[i]? = some p → t.members[j]? = some p → i = j) := by
+  refine ⟨?_, crash_safe_file_set t tmp0 tapes tape r hret, ?_⟩
+  · obtain ⟨f, hf, hr⟩ := ((result_truthful t.toSrc _ tape r hret).2 hcopied).1
+    rw [(format_of_layout t hclear).2] at hf
+    rw [hr, ← hf]
+  · intro i j p hi hj
+    have hlt : i < t.members.length := (List.getElem?_eq_some_iff.mp hi).1
+    exact (List.getElem?_inj hlt hnodup).mp (hi.trans hj.symm)
+
+/-- non-vacuity: the layout of the example above is clear, names its files once, and the run returns having copied -/
+example : (SrcTree.zips false [["a/1.png", "a/2.png"], ["b/1.png"]] 1).Clear ∧
+    (SrcTree.zips false [["a/1.png", "a/2.png"], ["b/1.png"]] 1).members.Nodup ∧
+    (attempt (SrcTree.zips false [["a/1.png", "a/2.png"], ["b/1.png"]] 1).toSrc (List.replicate 15 .any)
+      (history (SrcTree.zips false [["a/1.png", "a/2.png"], ["b/1.png"]] 1).toSrc [List.replicate 5 .any] ⟨none, none⟩)).pc
+      = .ret ⟨true, true, some .zips⟩ := ⟨by simp [SrcTree.Clear], by decide, by decide +kernel⟩
+
+/-- the `Clear` hypothesis is needed for the format: one archive among four other entries is copied as a plain folder -/
+example : ¬ (SrcTree.zips false [["a/1.png"]] 4).Clear ∧ fmtOf (SrcTree.zips false [["a/1.png"]] 4).toSrc = some .raw := by
+  constructor
+  · simp [SrcTree.Clear]
+  · decide
+
 end KDVerif.C20
